@@ -8,6 +8,7 @@
   about the engine.
 -/
 import Uec.Lemmas.PushWF
+import Uec.Lemmas.PushStraight
 namespace Uec.Props.C01
 open Uec
 
@@ -107,6 +108,49 @@ theorem block_step (fuel k : Nat) (s : PState) (ps : List Prog) (est : Stack Pro
   obtain ⟨s', hperf, he, hi, hf, hb, ho⟩ := block_unfold ps { s with exec := est } hs hroom
   refine ⟨s', ?_, he, hi, hf, hb, ho⟩
   rw [run_def fuel k s _ est hp, hperf]
+
+/-- **Front to back with blocks unfolding in order, for whole programs of any size and nesting.**
+    `ps` is any program built of instructions outside the exec family (all int/float/bool/print
+    instructions, literals, input variables) and of arbitrarily nested blocks; it sits on top of the exec
+    stack of a well-formed state (`exec = ps ++ rest`, first element on top), the exec stack has room for
+    it to unfold (`nodes ps + |rest| ≤ max`) and at least `nodes ps` steps are left.  Then the code-shaped
+    interpreter does exactly what the depth-first reading prescribes: the instructions of
+    `flatList ps` — the program read depth first — are performed in that order on the integer, float and
+    boolean stacks and the output (a recoverable failure skips the instruction), one step is used per
+    instruction and per block, and
+    * if no stack overflows, the run carries on with `exec = rest` from the state the flattened program
+      produced (`runInstrs`), after exactly `nodes ps` steps;
+    * otherwise it stops at the first overflow with that error, the data stacks and the output being
+      what the flattened program had produced up to there. -/
+theorem run_straightline (ps rest : List Prog) (fuel k : Nat) (s : PState) (hwf : WF s)
+    (hst : Prog.straightList ps = true) (htops : s.exec.tops = ps ++ rest)
+    (hroom : Prog.nodesList ps + rest.length ≤ s.exec.max) (hfuel : Prog.nodesList ps ≤ fuel) :
+    let start := s.withExec (Stack.ofTop s.exec.max rest)
+    (∀ s1, Spec.runInstrs (Prog.flatList ps) start = .ok s1 →
+        Impl.runLoop fuel k s = Impl.runLoop (fuel - Prog.nodesList ps) (k + Prog.nodesList ps) s1) ∧
+    (∀ s1 e, Spec.runInstrs (Prog.flatList ps) start = .fatal s1 e →
+        ∃ st j, Impl.runLoop fuel k s = .error st e j ∧ k ≤ j ∧ j < k + Prog.nodesList ps ∧
+          st.int = s1.int ∧ st.float = s1.float ∧ st.bool = s1.bool ∧ st.out = s1.out) ∧
+    Spec.runInstrs (Prog.flatList ps) start ≠ .panic := by
+  intro start
+  obtain ⟨h1, h2, h3⟩ := specRun_straight (Prog.nodesList ps) ps rest fuel k s rfl hst htops hroom hfuel
+  obtain ⟨wstart, hbps⟩ := WF.withRest s ps rest hwf htops
+  have hbi : ∀ i ∈ Prog.flatList ps, (Prog.instr i).bound start.inputs = true :=
+    Prog.flatList_bound s.inputs ps hbps
+  have toImpl : ∀ f k' t, WF t → Impl.runLoop f k' t = Impl.runLoopG Spec.perform f k' t :=
+    fun f k' t ht => run_eq_spec f k' t ht
+  refine ⟨fun s1 hs1 => ?_, fun s1 e hs1 => ?_, fun hp => ?_⟩
+  · have w1 := (Spec.runInstrs_wf _ start wstart hbi s1 hs1).1
+    rw [toImpl _ _ s hwf, toImpl _ _ s1 w1]
+    exact h1 s1 hs1
+  · rw [toImpl _ _ s hwf]
+    exact h2 s1 e hs1
+  · -- a panic of the flattened run would be a panic of the interpreter, which a well-formed state excludes
+    have := h3 hp
+    rw [← toImpl _ _ s hwf] at this
+    obtain ⟨t, p, est, ht, hpop, hpan⟩ :=
+      Impl.runLoopG_panic Impl.perform WF Impl.wf_loop_next fuel k s hwf this
+    exact Impl.wf_no_panic p _ (Impl.wf_pop t p est ht hpop).1 (Impl.wf_pop t p est ht hpop).2 hpan
 
 /-! ### "In particular": the result functions of the table -/
 
@@ -365,5 +409,27 @@ example : Impl.perform (.instr (.int .subtract)) (mkS 4 4 4 4 [] [3, 5] [] [] []
   rw [Uec.perform_eq_spec _ _ (sizesOk_mkS.mpr (by simp))]
   simp [Spec.perform, Spec.performInstr, Spec.sigInt, Spec.apply, Spec.sInt2, Spec.takeN, Spec.tops, mkS,
     Spec.liftE, Except.map, Spec.noRoom, Spec.withTops, I64.checked, I64.fits, I64.minVal, I64.maxVal]
+
+/-! `run_straightline` is not vacuous: a three-deep nested program with a failing instruction in it -/
+section straightline
+/-- `( 1 ( 2 Add ( Add ) ) IsOdd ) Noop` on exec; the second `Add` finds one operand only and is skipped -/
+def nestedProg : List Prog :=
+  [.block [.instr (.int (.push 1)), .block [.instr (.int (.push 2)), .instr (.int .add), .block [.instr (.int .add)]],
+           .instr (.int .isOdd)]]
+def nestedState : PState := mkS 10 4 4 4 (nestedProg ++ [.instr (.exec .noop)]) [] [] [] [] [] 100
+
+example : WF nestedState ∧ Prog.straightList nestedProg = true ∧
+    nestedState.exec.tops = nestedProg ++ [.instr (.exec .noop)] ∧
+    Prog.nodesList nestedProg + [Prog.instr (.exec .noop)].length ≤ nestedState.exec.max ∧
+    Prog.nodesList nestedProg = 8 ∧
+    Prog.flatList nestedProg =
+      [.int (.push 1), .int (.push 2), .int .add, .int .add, .int .isOdd] := by
+  refine ⟨⟨sizesOk_mkS.mpr (by simp [nestedProg]), by decide⟩, by decide, ?_, by decide, by decide, by decide⟩
+  simp [nestedState, mkS]
+/-- the interpreter, run on the nested program, ends where the flattened instruction list says: `[3]` is
+    odd, so `true` is on the boolean stack, after 8 steps for the program and 1 for the `Noop` -/
+example : ((Impl.run nestedState).state?.map fun t => (t.int.tops, t.bool.tops, t.exec.size)) = some ([], [true], 0) ∧
+    (Impl.run nestedState).steps? = some 9 := by decide
+end straightline
 
 end Uec.Props.C01
